@@ -277,6 +277,10 @@ func pathOf1(v ssa.Value, depth int) string {
 	case *ssa.Global:
 		return "G:" + v.Pkg.Pkg.Path() + "." + v.Name()
 	case *ssa.Alloc:
+		// a value parameter spilled to memory (its address is taken) still names the parameter
+		if sp := spilledParam(v); sp != nil {
+			return "P:" + sp.Name()
+		}
 		return "A:" + v.Name()
 	case *ssa.FreeVar:
 		return "F:" + v.Name()
@@ -382,9 +386,15 @@ func (E *Effects) of(fn *ssa.Function) []Effect {
 		for _, in := range b.Instrs {
 			switch x := in.(type) {
 			case *ssa.Store:
+				if a, ok := x.Addr.(*ssa.Alloc); ok && spilledParam(a) != nil {
+					continue // the spill of a value parameter into its own local
+				}
 				k := pathOf(x.Addr)
-				if strings.HasPrefix(k, "A:") {
+				if privatePath(k) {
 					continue // private local
+				}
+				if strings.HasPrefix(k, "A:") {
+					k = "?" // through a pointer that was merely stored in a local
 				}
 				if k == "" {
 					k = "?"
@@ -401,8 +411,11 @@ func (E *Effects) of(fn *ssa.Function) []Effect {
 				if bi, ok := com.Value.(*ssa.Builtin); ok {
 					if bi.Name() == "copy" || bi.Name() == "clear" {
 						k := pathOf(com.Args[0])
-						if strings.HasPrefix(k, "A:") {
+						if privatePath(k) {
 							continue
+						}
+						if strings.HasPrefix(k, "A:") {
+							k = "?"
 						}
 						if k == "" {
 							k = "?"
@@ -437,8 +450,10 @@ func (E *Effects) of(fn *ssa.Function) []Effect {
 							base := pathOf(com.Args[idx])
 							if base == "" {
 								k = "?"
-							} else if strings.HasPrefix(base, "A:") {
+							} else if privatePath(base) {
 								continue
+							} else if strings.HasPrefix(base, "A:") {
+								k = "?"
 							} else {
 								k = base + tail
 							}
@@ -644,4 +659,30 @@ func onlyFresh(rs []Root) (bool, string) {
 		}
 	}
 	return true, ""
+}
+
+// privatePath: the path denotes memory inside a local allocation itself (no
+// pointer loaded from it is followed).
+func privatePath(k string) bool {
+	return strings.HasPrefix(k, "A:") && !strings.Contains(k, "*")
+}
+
+// spilledParam returns the parameter whose value is the only thing ever stored
+// into the whole of local a (go/ssa spills value parameters whose address is taken).
+func spilledParam(a *ssa.Alloc) *ssa.Parameter {
+	refs := a.Referrers()
+	if refs == nil {
+		return nil
+	}
+	var par *ssa.Parameter
+	for _, r := range *refs {
+		if st, ok := r.(*ssa.Store); ok && st.Addr == ssa.Value(a) {
+			p, isP := st.Val.(*ssa.Parameter)
+			if !isP || par != nil {
+				return nil
+			}
+			par = p
+		}
+	}
+	return par
 }
